@@ -40,7 +40,7 @@ func (d deepCase) value() any {
 	return v
 }
 
-func stripWS(s string) string {
+func vhStripWS(s string) string {
 	return strings.NewReplacer(" ", "", "\n", "", "\t", "", "\r", "").Replace(s)
 }
 
@@ -75,16 +75,16 @@ func checkDeep(d deepCase) error {
 		errs, _ := ft.drain()
 		var text string
 		if d.API == "sjson" {
-			text = readFile(filepath.Join(root, spec.standalonePath("TestDeep", 1, true)))
-		} else if es, err := refParse(readFile(filepath.Join(root, spec.multiPath()))); err == nil && len(es) == 1 {
+			text = vhReadFile(filepath.Join(root, spec.standalonePath("TestDeep", 1, true)))
+		} else if es, err := refParse(vhReadFile(filepath.Join(root, spec.multiPath()))); err == nil && len(es) == 1 {
 			text = string(es[0].Body)
 		}
 		os.RemoveAll(root)
 		if len(errs) != 0 {
-			return fmt.Errorf("a valid document nested %d levels given as %s is rejected: %q", d.Depth, form, clipAll(errs))
+			return fmt.Errorf("a valid document nested %d levels given as %s is rejected: %q", d.Depth, form, vhClipAll(errs))
 		}
-		if got := stripWS(text); got != doc {
-			return fmt.Errorf("document nested %d levels given as %s: the stored text is not the input plus whitespace: %d bytes stored (without whitespace %d), input %d bytes; starts %q", d.Depth, form, len(text), len(got), len(doc), clip(text))
+		if got := vhStripWS(text); got != doc {
+			return fmt.Errorf("document nested %d levels given as %s: the stored text is not the input plus whitespace: %d bytes stored (without whitespace %d), input %d bytes; starts %q", d.Depth, form, len(text), len(got), len(doc), vhClip(text))
 		}
 		stored[form] = text
 	}
@@ -95,8 +95,8 @@ func checkDeep(d deepCase) error {
 }
 
 func TestC14_DeepNesting(t *testing.T) {
-	nshards, _ := strconv.Atoi(getenv("VERIF_NSHARDS", "1"))
-	shard, _ := strconv.Atoi(getenv("VERIF_SHARD", "0"))
+	nshards, _ := strconv.Atoi(vhGetenv("VERIF_NSHARDS", "1"))
+	shard, _ := strconv.Atoi(vhGetenv("VERIF_SHARD", "0"))
 	depths := []int{1, 2, 64, 999, 1000, 1001, 4096, 9999, 10000, 10001, 10002}
 	// the pretty printer needs time quadratic in the depth (arrays: 5 s at 10001 levels, 20 s at 20000; objects a tenth
 	// of that): arrays stay below 4097 levels in the quick tier and below 10003 in the thorough tier
